@@ -43,16 +43,21 @@ def e2e_case(rng):
     units = {}
     expect_atoms = {}
     has_h = False
+    single_atom = False
     for ui in range(rng.randint(1, 2)):
         for _ in range(50):
-            g = M.gen_molecule(rng, max_heavy=rng.randint(2, 6), p_arom=0.0, p_ring=0.2, charged=False)
-            cands = [n for n in g if g.nodes[n]['hcount'] >= 1]
-            if len(cands) >= 2:
+            g = M.gen_molecule(rng, max_heavy=rng.choice([1, 1, 2, 3, 4, 6]), p_arom=0.0, p_ring=0.2, charged=False)
+            slots = [n for n in g for _ in range(g.nodes[n]['hcount'])]
+            if len(slots) >= 2:
                 break
         else:
             return None
-        a, b = rng.sample(cands, 2)
-        desc = {a: [('$', '', 1)], b: [('$', '', 1)]}
+        a = rng.choice(slots)
+        slots.remove(a)
+        b = rng.choice(slots)
+        desc = {}
+        desc.setdefault(a, []).append(('$', '', 1))
+        desc.setdefault(b, []).append(('$', '', 1))
         annots = {}
         for n in g:
             if rng.random() < 0.5:
@@ -102,6 +107,8 @@ def e2e_case(rng):
                 expect_atoms[name][str(pos)] = h_annots[n][1]
         if h_annots:
             has_h = True
+        if len(g) == 1 and annots:
+            single_atom = True
     names = sorted(units)
     n_nodes = rng.randint(1, 5)
     ast = G.random_ast(rng, n_nodes, max_depth=1, p_branch=0.2, p_bond=0.0, p_mult_node=0.3, names=names,
@@ -114,7 +121,7 @@ def e2e_case(rng):
     string = G.to_string(ast) + '.{' + ','.join('#%s=%s' % kv for kv in units.items()) + '}'
     from .. import oracles
     return dict(kind='e2e', string=string, base_expect=[oracles.expected_attrs(nd) for nd in nodes], atom_expect=expect_atoms,
-                features=sorted({'e2e', 'reuse_%d' % min(max(uses.values()), 8)} | ({'node_mult'} if 'node_mult' in feats else set()) | ({'explicit_annotated_hydrogen'} if has_h else set())),
+                features=sorted({'e2e', 'reuse_%d' % min(max(uses.values()), 8)} | ({'node_mult'} if 'node_mult' in feats else set()) | ({'explicit_annotated_hydrogen'} if has_h else set()) | ({'annotated_single_atom_fragment'} if single_atom else set())),
                 reuse=max(uses.values()))
 
 
